@@ -35,6 +35,7 @@ type relayFaults struct {
 	latMin    time.Duration
 	latMax    time.Duration
 	injectPm  int // after a Send, the relay also delivers a forged message (C07)
+	capMsgs   int // mailbox capacity in messages: a Send blocks while the box holds that many (0 = unbounded)
 	delErrPm  int // DelCipherBox fails (at any time, not only before `until`); the box may or may not be gone
 }
 
@@ -49,6 +50,7 @@ type box struct {
 	reader *recvStream
 	writer *sendStream
 	wake   chan struct{}
+	wwake  chan struct{} // signalled when a message leaves the box
 }
 
 type seenMsg struct {
@@ -65,6 +67,8 @@ type relay struct {
 	sids   map[string]int // stream ids ever presented, with a count
 	events []string
 	nMsgs  int
+	// blocked: senders currently waiting for room in a full mailbox
+	blocked int
 }
 
 func newRelay(rc *simrt.RunCtx, f relayFaults) *relay {
@@ -98,7 +102,7 @@ func (r *relay) NewCipherBox(ctx context.Context, in *hashmailrpc.CipherBoxAuth,
 	if _, ok := r.boxes[id]; ok {
 		return nil, status.Error(codes.AlreadyExists, "stream already active")
 	}
-	r.boxes[id] = &box{id: id, wake: make(chan struct{}, 1)}
+	r.boxes[id] = &box{id: id, wake: make(chan struct{}, 1), wwake: make(chan struct{}, 1)}
 	r.note("new box %s", id[:8]+id[len(id)-2:])
 	return &hashmailrpc.CipherInitResp{Resp: &hashmailrpc.CipherInitResp_Success{Success: &hashmailrpc.CipherSuccess{Desc: in.Desc}}}, nil
 }
@@ -121,6 +125,10 @@ func (r *relay) DelCipherBox(ctx context.Context, in *hashmailrpc.CipherBoxAuth,
 			case b.wake <- struct{}{}:
 			default:
 			}
+			select {
+			case b.wwake <- struct{}{}:
+			default:
+			}
 		}
 		r.note("del box %s fails, box gone", id[:8])
 		return nil, status.Error(codes.Unavailable, "simulated relay failure")
@@ -132,6 +140,10 @@ func (r *relay) DelCipherBox(ctx context.Context, in *hashmailrpc.CipherBoxAuth,
 		r.note("del box %s", id[:8])
 		select {
 		case b.wake <- struct{}{}:
+		default:
+		}
+		select {
+		case b.wwake <- struct{}{}:
 		default:
 		}
 	}
@@ -214,6 +226,36 @@ func (s *sendStream) Send(m *hashmailrpc.CipherBox) error {
 		return s.dead
 	}
 	b.writer, s.box = s, b
+	// a bounded mailbox: the call blocks while the box is full (the real
+	// relay's mailbox is a pipe; back-pressure reaches the sender)
+	if r.f.capMsgs > 0 && len(b.q) >= r.f.capMsgs {
+		r.rc.Fault("relay-backpressure")
+		r.blocked++
+		for len(b.q) >= r.f.capMsgs {
+			ww := b.wwake
+			r.mu.Unlock()
+			select {
+			case <-ww:
+			case <-s.ctx.Done():
+				r.mu.Lock()
+				r.blocked--
+				r.mu.Unlock()
+				return status.Error(codes.Canceled, s.ctx.Err().Error())
+			}
+			r.mu.Lock()
+			if cur, ok := r.boxes[id]; !ok || cur != b || s.dead != nil || s.closed {
+				r.blocked--
+				err := s.dead
+				if err == nil {
+					err = status.Error(codes.NotFound, "stream not found")
+					s.dead = err
+				}
+				r.mu.Unlock()
+				return err
+			}
+		}
+		r.blocked--
+	}
 	faulty := r.faulty()
 	if faulty && simrt.Pm(r.f.sendErrPm, "relay.send-err") {
 		r.rc.Fault("relay-send-stream-error")
@@ -354,6 +396,10 @@ func (s *recvStream) Recv() (*hashmailrpc.CipherBox, error) {
 			b.q = b.q[1:]
 			more := len(b.q) > 0
 			wake := b.wake
+			select {
+			case b.wwake <- struct{}{}:
+			default:
+			}
 			r.mu.Unlock()
 			if more {
 				select {
@@ -442,7 +488,7 @@ func (r *relay) restart(until time.Duration) {
 			b.writer.dead = status.Error(codes.Unavailable, "simulated relay restart")
 			b.writer = nil
 		}
-		wakes = append(wakes, b.wake)
+		wakes = append(wakes, b.wake, b.wwake)
 		delete(r.boxes, id)
 	}
 	r.mu.Unlock()
@@ -465,6 +511,12 @@ func (r *relay) boxIDs() []string {
 	}
 	sort.Strings(ids)
 	return ids
+}
+
+func (r *relay) blockedSenders() int {
+	r.mu.Lock()
+	defer r.mu.Unlock()
+	return r.blocked
 }
 
 func (r *relay) sidCount(id string) int {
